@@ -198,7 +198,7 @@ theorem payload {E : Ext} {cfg : Cfg} {e : RustEnum} {tag content : Str} {id : I
   exact ⟨t, st1, rfl, ht⟩
 
 /-- **alias**: `X = <translation of the type>`; afterwards the generic parameters of the alias are
-registered as type variables (since the `fix:` commit 614135b) -/
+registered as type variables (since the `fix:` commit f8d1040) -/
 theorem alias {cfg : Cfg} {a : RustTypeAlias} {st st' : St} {pa : PyAlias}
     (h : aliasFacts cfg a st = .ok (pa, st')) :
     ∃ st1, formatType cfg a.genericTypes a.ty st = .ok (pa.ty, st1) ∧
